@@ -147,6 +147,13 @@ func rulesC14(w *World, r *Report) {
 			}
 			S, _ := f.Eval(t, env)
 			ok := S != nil && !S.Empty() && S.SubsetOf(mkSet(0, allocCap))
+			if !ok {
+				// the size may come back from a helper inside a struct: path-level look
+				if okP, factP := w.pxAllocBound(fn, in, size); okP {
+					r.add("C14.R2 allocation sizes are bounded", key, w.instrPos(in), true, factP)
+					return
+				}
+			}
 			r.add("C14.R2 allocation sizes are bounded", key, w.instrPos(in), ok,
 				fmt.Sprintf("size %s ∈ %s (required ⊆ [0,%d]: an allocation driven by a length merely declared in the input is unbounded)", t.Key(), S, allocCap))
 		}
